@@ -31,9 +31,9 @@ func runC20(c *Ctx) {
 	p := c.Progs["mod"]
 	c.Rule("C20.G", "health gate before any polling", 7)
 	c.Rule("C20.U", "consecutive-failure counter and threshold", 7)
-	c.Rule("C20.S", "shutdown sequence", 8)
+	c.Rule("C20.S", "shutdown sequence", 9)
 	c.Rule("C20.P", "polling stops once cancellation is observed", 3)
-	c.Rule("C20.W", "workers are independent of the polling context", 3)
+	c.Rule("C20.W", "workers are independent of the polling context", 4)
 	const ag = ModPath + "/agent"
 
 	main := c.need(p, "C20.G", "agent.main")
@@ -162,6 +162,7 @@ func runC20(c *Ctx) {
 	}
 
 	// ---- C20.U
+	localClamp := false
 	if f := c.need(p, "C20.U", "agent.runHealthChecks"); f != nil {
 		hc := Calls(f, hcName)
 		fatal := ExitCalls(f)
@@ -196,7 +197,28 @@ func runC20(c *Ctx) {
 				if PathOf(cnt) == "**global:healthCheckUnhealthy" {
 					cnt, thr = thr, cnt
 				}
-				c.Check("C20.U", "threshold:is-configured-flag", p, cmp.Pos(), PathOf(thr) == "**global:healthCheckUnhealthy", "the counter is compared with -health-check-unhealthy-threshold", "the failure counter is compared with "+PathOf(thr)+", not with the configured threshold")
+				okFlag := PathOf(thr) == "**global:healthCheckUnhealthy"
+				if ph, isPhi := thr.(*ssa.Phi); isPhi && !okFlag {
+					// a private copy of the flag clamped from below: phi(flag value, 1)
+					okFlag = true
+					sawFlag := false
+					for _, e := range ph.Edges {
+						switch {
+						case PathOf(e) == "**global:healthCheckUnhealthy":
+							sawFlag = true
+						case isConstInt(e, 1):
+						default:
+							okFlag = false
+						}
+					}
+					okFlag = okFlag && sawFlag
+					if okFlag {
+						if win, err := (&interp{p: p, globals: map[string]iv{}}).evalValue(thr, 0); err == nil && win.kind == 'i' && win.ilo.Sign() > 0 {
+							localClamp = true
+						}
+					}
+				}
+				c.Check("C20.U", "threshold:is-configured-flag", p, cmp.Pos(), okFlag, "the counter is compared with -health-check-unhealthy-threshold", "the failure counter is compared with "+PathOf(thr)+", not with the configured threshold")
 				// truth table
 				env := func(cv, tv int64) Env {
 					return func(v ssa.Value) (constant.Value, bool) {
@@ -264,13 +286,64 @@ func runC20(c *Ctx) {
 				resetBad = false
 				visit(cnt, nil, 0)
 				_ = loopPhi
-				c.Check("C20.U", "counter:increment-on-failure", p, cmp.Pos(), okInc, "a failed check adds one to the counter", "a failed health check does not add one to the loop-carried counter")
+				// every way through the failing side adds one: a sub-case that leaves the counter as it is
+				// (a class of failures declared "inconclusive") is never counted
+				var allInc func(v ssa.Value, d int) bool
+				allInc = func(v ssa.Value, d int) bool {
+					if d > 6 {
+						return false
+					}
+					switch x := v.(type) {
+					case *ssa.BinOp:
+						_, isPhi := x.X.(*ssa.Phi)
+						return x.Op == token.ADD && isConstInt(x.Y, 1) && isPhi
+					case *ssa.Phi:
+						if x.Block() != failBlk && !failBlk.Dominates(x.Block()) {
+							return false // the counter as it came in: unchanged
+						}
+						for _, e := range x.Edges {
+							if !allInc(e, d+1) {
+								return false
+							}
+						}
+						return true
+					}
+					return false
+				}
+				seen2 := map[*ssa.Phi]bool{}
+				var failSide func(v ssa.Value, d int) bool
+				failSide = func(v ssa.Value, d int) bool {
+					ph, isPhi := v.(*ssa.Phi)
+					if !isPhi || seen2[ph] || d > 6 {
+						return true
+					}
+					seen2[ph] = true
+					for k, e := range ph.Edges {
+						pred := ph.Block().Preds[k]
+						switch {
+						case pred == failBlk || failBlk.Dominates(pred):
+							if !allInc(e, 0) {
+								return false
+							}
+						case pred == passBlk || passBlk.Dominates(pred):
+						default:
+							if InLoop(pred) && !failSide(e, d+1) {
+								return false
+							}
+						}
+					}
+					return true
+				}
+				if okInc && !failSide(cnt, 0) {
+					okInc = false
+				}
+				c.Check("C20.U", "counter:increment-on-failure", p, cmp.Pos(), okInc, "every failed check adds one to the counter", "a failed health check does not (on every path through the failing side) add one to the loop-carried counter: a class of failures that is neither counted nor a success — timeouts declared inconclusive, say — lets a wedged backend fail checks for ever without the agent terminating")
 				c.Check("C20.U", "counter:reset-on-success", p, cmp.Pos(), okReset && !resetBad, "a passed check sets the counter to 0 (a single success resets the count)", "a passed health check does not reset the counter to 0 (e.g. it only decrements it): non-consecutive failures add up and the agent terminates itself although the threshold number of consecutive failures never occurred")
 				c.Check("C20.U", "counter:starts-at-zero", p, cmp.Pos(), okInit, "the counter starts at 0", "the counter does not start at 0")
 			}
 		}
 		// clamp
-		okClamp := false
+		okClamp := localClamp
 		EachInstr(f, func(i ssa.Instruction) {
 			if st, ok := i.(*ssa.Store); ok && PathOf(st.Addr) == "*global:healthCheckUnhealthy" && isConstInt(st.Val, 1) {
 				for _, g := range GuardingIfs(st) {
@@ -334,6 +407,26 @@ func runC20(c *Ctx) {
 			c.Bad("C20.S", "main:waits-for-signal", p, main.Pos(), "main does not wait on the shutdown signal channel")
 		} else {
 			c.OK("C20.S", "main:waits-for-signal", p, recv.Pos(), "main blocks on the shutdown signal channel")
+			// between registering the handler (signals are no longer fatal from then on) and waiting
+			// for the signal, main does not wait for anything else: a health wait in between makes the
+			// agent deaf to SIGINT/SIGTERM for as long as the backend stays unhealthy
+			blocking := func(i ssa.Instruction) bool {
+				if i.Parent() != main {
+					return false
+				}
+				if _, isGo := i.(*ssa.Go); isGo {
+					return false
+				}
+				if IsCall(i, ModPath+"/agent.waitForHealthy", ModPath+"/agent.runAdapter", ModPath+"/agent.runHealthChecks", "time.Sleep", "(*sync.WaitGroup).Wait") {
+					return true
+				}
+				if u, isU := i.(*ssa.UnOp); isU && u.Op == token.ARROW && i != recv {
+					return true
+				}
+				return false
+			}
+			hit, _ := (&Walk{Target: blocking, Avoid: func(i ssa.Instruction) bool { return i == recv }, Local: true}).FromInstr(sc)
+			c.Check("C20.S", "main:nothing-waits-between-handler-registration-and-signal-wait", p, sc.Pos(), hit == nil, "after signal.Notify main goes straight to the receive from the signal channel", "main registers the signal handler and then waits for something else first ("+posStr(p, hit)+"): during that wait SIGINT/SIGTERM only close a channel nobody reads, so the agent neither exits promptly nor starts its graceful period")
 			env := func(to int64) Env {
 				return func(v ssa.Value) (constant.Value, bool) {
 					if PathOf(v) == "**global:gracefulShutdownTimeout" {
@@ -607,6 +700,32 @@ func runC20(c *Ctx) {
 		c.Check("C20.W", "polling-context:confined", p, f.Pos(), bad == "", "the polling context is only asked Done()/Err() inside pollForNewRequests: nothing a worker uses depends on it", "the polling context is "+bad+": cancelling polling on shutdown also cancels what that value was given to (e.g. the HTTP client the workers use to fetch requests and upload responses), so requests already forwarded are not answered")
 		if ra := p.Func("agent.runAdapter"); ra != nil {
 			ruleParamOnlyPassedTo(c, p, "C20.W", "runAdapter:polling-context-only-for-the-poller", ra, 1, ag+".pollForNewRequests", 0, "runAdapter hands the polling context to pollForNewRequests and to nothing else", "the polling context leaks out of the poller in runAdapter: whatever receives it (a transport wrapper, the shared HTTP client, the handler chain) is cancelled together with polling, so uploads of requests already forwarded are aborted at shutdown")
+		}
+		// the adapter's context reaches the websocket shim and the banner only (their own lifetimes);
+		// it is not made the context of forwarded requests: runAdapter cancels it when polling ends,
+		// i.e. at the START of the graceful period, and requests already at the backend would be cut
+		if hp := p.Func("agent.hostProxy"); hp != nil {
+			if prm := ParamAt(hp, 0); prm != nil && NamedType(prm.Type()) == "context.Context" {
+				why := ""
+				uses := 0
+				for _, r := range Refs(prm) {
+					switch x := r.(type) {
+					case *ssa.DebugRef:
+					case *ssa.Call:
+						switch CalleeName(x.Common()) {
+						case ModPath + "/agent/websockets.Proxy", ModPath + "/agent/banner.Proxy":
+							uses++
+						default:
+							why = "passed to " + CalleeName(x.Common()) + " at " + p.Pos(x.Pos())
+						}
+					default:
+						why = fmt.Sprintf("used by %T at %s (captured by a closure, stored or handed on)", r, p.Pos(r.Pos()))
+					}
+				}
+				c.Check("C20.W", "hostProxy:adapter-context-not-tied-to-requests", p, hp.Pos(), why == "", fmt.Sprintf("hostProxy hands its context to the websocket shim / banner constructors only (%d use(s))", uses), "hostProxy's context (cancelled by runAdapter as soon as polling ends) is "+why+": forwarded requests bound to it are cancelled at the start of the graceful period instead of being answered in full")
+			} else {
+				c.Unk("C20.W", "hostProxy:adapter-context-not-tied-to-requests", p, hp.Pos(), "hostProxy no longer takes a context as its first parameter")
+			}
 		}
 		// the shared client is not modified
 		mod := ""
